@@ -136,6 +136,10 @@ def c12 : List String := Id.run do
   for m in allSafeMacros do
     if !sameAsserts (safeArmOf m .xconst).asserts (safeArmOf m .xany).asserts then
       out := out ++ [s!"safe macro {repr m}: with DIMS = a.len() the xconst form asserts {repr (safeArmOf m .xconst).asserts} but the xany form asserts {repr (safeArmOf m .xany).asserts} (a slice length one form checks and the other does not)"]
+    for f in [Form.xconst, Form.xany] do
+      let arm := safeArmOf m f
+      if arm.otherStmts != 0 || arm.assertsAfterDispatch != 0 then
+        out := out ++ [s!"safe macro {repr m}, {repr f} form: besides its assertions and the dispatch the function body has {arm.otherStmts} other statement(s) and {arm.assertsAfterDispatch} assertion(s) after the dispatch — a path (an early return, a special case) that the other form need not have"]
     let sc := (safeArmOf m .xconst).slots.map (·.label)
     let sa := (safeArmOf m .xany).slots.map (·.label)
     if sc != sa then
